@@ -147,7 +147,7 @@ class Rig(object):
             bundle = enc.Bundle(bytes(bundle))
         return m['util'].BundleContainer(bundle)
 
-    def send(self, spec, mtu, now_ms=None):
+    def send(self, spec, mtu, now_ms=None, as_source=None):
         ''' one send request (the agent's clock reads DTN time `now_ms`); returns (list of byte strings handed to the CL, escaped class or None,
         escapes in idle callbacks) '''
         self.out = []
@@ -159,7 +159,12 @@ class Rig(object):
             ctr = self.container(spec)   # reload() in the constructor may raise (duplicate numbers)
             ctr.route = self.route
             ctr.sender = self.cap
-            self.agent.send_bundle(ctr)
+            if as_source is None:
+                as_source = spec.get('as_source', True)
+            if as_source:
+                self.agent.send_bundle(ctr)
+            else:
+                self.agent.send_bundle(ctr, as_source=False)   # what _do_fwd does
         except Exception as err:  # observable: exception class escaped
             esc = type(err).__name__
         idle_esc = self.drain()
